@@ -3,7 +3,7 @@ import _kvstack as kv
 import vf
 
 
-CONTRACT_ACTS = ("ContractPut", "Migrate", "Destroy", "Deploy", "DeployRefused")
+CONTRACT_ACTS = ("ContractPut", "Migrate", "Destroy", "Deploy", "DeployRefused", "MarkDestroyed", "PutRefused")
 
 
 def segment(path):
@@ -22,6 +22,8 @@ def segment(path):
                 tx_start = state
             if n == "DeployRefused" and st["act"]["c"] in state["destroyed"]:
                 aborts = True
+            if n == "PutRefused":
+                aborts = True       # APPCALL of an address that is not a live contract faults the transaction
             cur.append(st["act"])
         elif n in ("CacheCommit", "CacheReset"):
             if cur:
@@ -103,7 +105,7 @@ def neo_binding(ctx):
 
 
 def run(ctx):
-    acts = ["ContractPut", "CacheCommit", "OvlCommit", "Migrate", "Destroy", "Deploy", "DeployRefused"]
+    acts = ["ContractPut", "CacheCommit", "OvlCommit", "Migrate", "Destroy", "Deploy", "DeployRefused", "MarkDestroyed", "PutRefused"]
     cfg = "KVStack_C44t.cfg" if ctx.thorough else "KVStack_C44.cfg"
     mc = kv.model_check(ctx, cfg, acts, workers=1)
     binary = ctx.go_test_bin("smartcontract/storage")
@@ -130,7 +132,7 @@ def run(ctx):
             for e in evs:
                 counts[e["event"]] = counts.get(e["event"], 0) + 1
             ctx.extra["trace_event_counts"] = counts
-            for need in ("Migrate", "Destroy", "DeployRefused"):
+            for need in ("Migrate", "Destroy", "DeployRefused", "MarkDestroyed", "PutRefused"):
                 if counts.get(need, 0) == 0:
                     ctx.infra("random driver never produced a %s event" % need)
             kv.self_test(ctx, tp)
